@@ -51,7 +51,8 @@ static void state_line_tag(char tag)
 {
 	if (!tr) return;
 	fprintf(tr, "%c %lx %u %u %d %u ", tag, comstate, goodrcpt, rcptcount, relayclient, xmitstat.esmtp);
-	if (xmitstat.authname.len) for (size_t i = 0; i < xmitstat.authname.len; i++) fprintf(tr, "%02x", (unsigned char)xmitstat.authname.s[i]); else fputc('-', tr);
+	/* at exit ('Z') conn_cleanup() has freed authname.s without resetting the length: do not read it */
+	if (xmitstat.authname.len && tag != 'Z') for (size_t i = 0; i < xmitstat.authname.len; i++) fprintf(tr, "%02x", (unsigned char)xmitstat.authname.s[i]); else fputc('-', tr);
 	fputc(' ', tr);
 	if (xmitstat.mailfrom.len) for (size_t i = 0; i < xmitstat.mailfrom.len; i++) fprintf(tr, "%02x", (unsigned char)xmitstat.mailfrom.s[i]); else fputc('-', tr);
 	fprintf(tr, " %d %lu %lu\n", xmitstat.ssl != NULL, ntarpit, nsleep);
